@@ -14,7 +14,7 @@ pub struct C14;
 
 fn n_cases(tier: Tier) -> u64 {
     match tier {
-        Tier::Quick => 80_000,
+        Tier::Quick => 250_000,
         Tier::Thorough => 2_000_000,
     }
 }
